@@ -30,7 +30,7 @@ def cfg(tier):
     return ["SPECIFICATION Spec", "CONSTANTS",
             f" LKinds <- {'KQ' if q else 'KAll'}", f" NSs <- {'N12' if q else 'N123'}", f" NFs <- {'N12' if q else 'N123'}",
             f" Orders <- {'OQ' if q else 'OAll'}", " IKindsMain <- IAll", f" IKindsRest <- {'IInt' if q else 'IRestQ'}",
-            f" NameChoices <- {'NQ' if q else 'NAll'}", f" Flags <- {'FlQ' if q else 'FlAll'}", " Faults <- NoFault",
+            f" NameChoices <- {'NQ' if q else 'NAll'}", " Flags <- FlQ", " Faults <- NoFault",
             *[f"INVARIANT {i}" for i in INV], "CHECK_DEADLOCK FALSE"]
 
 
